@@ -104,6 +104,8 @@ def run(ctx):
     if not quick:
         binding_demo(ctx, sd, first)
 
+    in_situ(ctx)
+
     ctx.cov["rows"] = total_rows
     ctx.cov["histories"] = total_hist
     ctx.cov["driver_runs"] = details
@@ -149,3 +151,32 @@ def binding_demo(ctx, sd, trace):
     ctx.cov["binding_demo"] = {"corrupted_line": idx + 1, "rejected": rejected}
     if not rejected:
         raise vf.ToolError("binding demonstration failed: a corrupted trace was accepted")
+
+
+def in_situ(ctx):
+    """Whole-system part: every plan's large object space(s) during real collections. The heap
+    walker reports the four treadmill sets by object identity at every collection end (and at the
+    re-walk after a burst of allocations); HeapTrace.tla requires that no object is in two sets and
+    that every reachable object of the space is in one (tags C36:...)."""
+    from props import heapcommon as hc
+    runs = []
+    plans = [p for p in hc.PLANS if p != "NoGC"]
+    for p in plans:
+        if ctx.tier == "quick":
+            runs.append(hc.Run(p, name="los", heap=12, workers=3, programs=4, ops=160,
+                               sems="0,0,2,2,2", seed_off=30))
+        else:
+            runs.append(hc.Run(p, name="los", heap=12, workers=4, programs=25, ops=220,
+                               sems="0,0,2,2,2", seed_off=30))
+            runs.append(hc.Run(p, name="los-tiny", heap=6, workers=2, programs=25, ops=220,
+                               sems="0,2,2", seed_off=31))
+            runs.append(hc.Run(p, feats=["vo_bit"], name="los-vo", heap=12, workers=8, programs=20,
+                               ops=200, sems="0,0,2,2", seed_off=32))
+    try:
+        from props import c12 as satb
+        if hasattr(satb, "satb_runs"):
+            runs += satb.satb_runs(ctx.tier)
+    except Exception:  # noqa: BLE001  (the concurrent-marking runs are optional here)
+        pass
+    st = hc.execute(ctx, runs, ("C36:",))
+    ctx.cov["in_situ"] = st
